@@ -108,9 +108,11 @@ class RedisMessageBroker(MessageBrokerT):
             keys=["parameters", "_reject_to"],
         )
 
-        if raw_params[0] is None:
-            # the message doesn't exist anymore (e.g. it was acked just before): there is nothing
-            # to return - pushing its name would leave a message without data in the queue
+        if raw_params[0] is None or raw_params[1] is None:
+            # the message doesn't exist anymore (e.g. it was acked just before), or it is not in
+            # flight anymore (it was nacked or requeued just before: that removes `_reject_to`):
+            # there is nothing to return - pushing its name would leave a message without data,
+            # or a second copy of the message, in the queue
             async with self.conn.pipeline(transaction=True) as pipe:
                 self.__unmark_processing(key, pipe)
                 await pipe.execute()
@@ -118,9 +120,7 @@ class RedisMessageBroker(MessageBrokerT):
 
         params = self.PARAMETERS_CLASS.decode(raw_params[0].decode())
 
-        reject_to = "n"  # normal queue
-        if raw_params[1] is not None:
-            reject_to = raw_params[1].decode()
+        reject_to = raw_params[1].decode()
 
         async with self.conn.pipeline(transaction=True) as pipe:
             if reject_to == "dead":
